@@ -190,6 +190,9 @@ pub fn check_l2(vm: &mut VM, prog: &Program, layout: &Layout) -> (L2Verdict, Str
     if f.repeated_call {
         classes.push("c08/same-proc-called-twice".to_string());
     }
+    if f.push_call_in_proc {
+        classes.push("c08/nested-call-between-push-and-pop".to_string());
+    }
     if rr.stop == Stop::RetWithoutCall {
         classes.push("c08/ret-without-call-stops-run".to_string());
     }
@@ -281,7 +284,11 @@ pub fn eval_cli(c: &C8Case) -> CaseOutcome {
     }
     let f = features(&prog, &rr.trace, &flat);
     let nt = f.backward_jump || f.call_depth2 || f.label_adjacent_special || f.repeated_call;
-    CaseOutcome::Pass { nontrivial: nt, classes: vec!["c08/cli".into()], digest: fnv_str(&rendered.text) }
+    let mut classes = vec!["c08/cli".to_string()];
+    if f.push_call_in_proc {
+        classes.push("c08/cli/nested-call-between-push-and-pop".into());
+    }
+    CaseOutcome::Pass { nontrivial: nt, classes, digest: fnv_str(&rendered.text) }
 }
 
 /// "for any nesting and any number of calls": recursion to depth n, chains of n distinct procedures, n sequential
@@ -719,7 +726,7 @@ pub fn run(ctx: &Ctx) {
     } else {
         ctx.harness_error("CLI binary not built");
     }
-    for c in ["c08/backward-jump-taken", "c08/call-depth>=2", "c08/label-adjacent-to-proc-print-or-eof", "c08/same-proc-called-twice", "c08/ret-without-call-stops-run", "c08/label-shares-a-procedure-name"] {
+    for c in ["c08/backward-jump-taken", "c08/call-depth>=2", "c08/label-adjacent-to-proc-print-or-eof", "c08/same-proc-called-twice", "c08/ret-without-call-stops-run", "c08/label-shares-a-procedure-name", "c08/nested-call-between-push-and-pop"] {
         ctx.require_class(c, 20);
     }
 }
